@@ -6,11 +6,12 @@ import shutil
 import subprocess
 import time
 
-VERIF = "/verif"
+VERIF = os.path.dirname(os.path.dirname(os.path.abspath(__file__)))   # /verif, or a snapshot of it
 SPEC = os.path.join(VERIF, "spec")
 HARNESS_DIR = os.path.join(VERIF, "harness")
 HARNESS_BIN = os.path.join(HARNESS_DIR, "target", "debug", "verif-harness")
 WORK = os.path.join(VERIF, "work")
+REPO = os.environ.get("VERIF_REPO", "/repo")      # the registered commands always use /repo
 
 
 class ToolError(Exception):
@@ -38,7 +39,13 @@ def build_harness():
         return
     lock = os.path.join(HARNESS_DIR, "Cargo.lock")
     if not os.path.exists(lock):
-        shutil.copy("/repo/Cargo.lock", lock)
+        shutil.copy(os.path.join(REPO, "Cargo.lock"), lock)
+    if REPO != "/repo":
+        # a background run against a frozen copy of the repository (never the registered commands)
+        mf = os.path.join(HARNESS_DIR, "Cargo.toml")
+        txt = open(mf).read()
+        if '"/repo/' in txt:
+            open(mf, "w").write(txt.replace('"/repo/', '"' + REPO + '/'))
     t0 = time.time()
     p = sh(["cargo", "build", "--offline"], cwd=HARNESS_DIR, env={"CARGO_NET_OFFLINE": "true"}, check=False,
            timeout=3600)
